@@ -770,6 +770,21 @@ func RunTransfer(env *Env, plan *TransferPlan) {
 	for _, ws := range plan.Webseeds {
 		hasSource = hasSource || ws.Honest
 	}
+	nStay := 0
+	for _, ps := range plan.Peers {
+		if ps.Stays && !ps.Honest {
+			nStay++
+		}
+	}
+	if sut.Cfg.WriteCacheSize < int64(nStay+1)*int64(T.PieceLen) {
+		// every stalling peer that stays can hold the memory of one piece in flight for good (a
+		// stalled download keeps its reservation, like a useless peer keeps its connection
+		// slot); with no room left beyond that the honest source waits for memory forever
+		if hasSource {
+			simrt.Count("probe.transfer.liveness_skipped_memory_held", 1)
+		}
+		hasSource = false
+	}
 	if sut.Cfg.WriteCacheSize < int64(T.PieceLen) {
 		// the configured memory for pieces in flight cannot hold one piece: nothing can ever be
 		// downloaded with this configuration (rain waits; no property says otherwise)
